@@ -62,6 +62,7 @@ type Unit struct {
 	// over-approximation, so whatever is still proved holds; what fails is reported with no-failing-input-found unless a
 	// replay confirms it
 	abstract     map[string]bool
+	wakesHit     bool // a blocking select was met in the unit's own body (for `wakes` clauses)
 	wantAbstract string
 }
 
